@@ -1,26 +1,1086 @@
 package main
 
-// Kinds of layers 2 and 3 (signals, types, units, attributes, builders): snapshot and checks.
+// Layers 2 and 3: signals (standard, enum, multiplexer with nesting), signal types, units,
+// attributes and their assignments, CAN-ID builders. The Coq model does not have these
+// operations yet (they are written as X lines and as NewOther allocations); the property
+// predicates, the declarative preconditions, the snapshots and the panic / no-op checks are all
+// evaluated on the implementation here.
 
 import (
+	"fmt"
+	"sort"
+	"strconv"
+	"strings"
+
 	acme "github.com/squadracorsepolito/acmelib"
+	"verif/vinv"
 )
 
-func extraSnap(p *Pool, e *Ent) string { return "" }
+// ---- pool accessors -----------------------------------------------------------------------------
 
-func msgSignalsSnap(p *Pool, m *acme.Message) string { return "" }
+func (p *Pool) sig(h int64) acme.Signal {
+	if e := p.get(h); e != nil && e.Sig != nil {
+		return e.Sig
+	}
+	return nil // untyped nil: the interface value the API receives for a nil argument
+}
+func (p *Pool) mux(h int64) *acme.MultiplexerSignal {
+	if e := p.get(h); e != nil && e.Sig != nil && e.Sig.Kind() == acme.SignalKindMultiplexer {
+		m, _ := e.Sig.ToMultiplexer()
+		return m
+	}
+	return nil
+}
+func (p *Pool) std(h int64) *acme.StandardSignal {
+	if e := p.get(h); e != nil && e.Sig != nil && e.Sig.Kind() == acme.SignalKindStandard {
+		s, _ := e.Sig.ToStandard()
+		return s
+	}
+	return nil
+}
+func (p *Pool) esig(h int64) *acme.EnumSignal {
+	if e := p.get(h); e != nil && e.Sig != nil && e.Sig.Kind() == acme.SignalKindEnum {
+		s, _ := e.Sig.ToEnum()
+		return s
+	}
+	return nil
+}
+func (p *Pool) typ(h int64) *acme.SignalType {
+	if e := p.get(h); e != nil {
+		return e.Type
+	}
+	return nil
+}
+func (p *Pool) unit(h int64) *acme.SignalUnit {
+	if e := p.get(h); e != nil {
+		return e.Unit
+	}
+	return nil
+}
+func (p *Pool) attr(h int64) acme.Attribute {
+	if e := p.get(h); e != nil && e.Attr != nil {
+		return e.Attr
+	}
+	return nil
+}
+func (p *Pool) bld(h int64) *acme.CANIDBuilder {
+	if e := p.get(h); e != nil {
+		return e.Bld
+	}
+	return nil
+}
 
-func extraCheck(p *Pool, e *Ent) []string { return nil }
+func (p *Pool) addSig(s acme.Signal) {
+	h := p.add(&Ent{K: KSig, Sig: s})
+	p.register(s.EntityID(), h)
+}
 
-func extraTemplates() []template { return nil }
+func sigsOfKind(p *Pool, k acme.SignalKind) []int {
+	var out []int
+	for _, h := range p.of(KSig) {
+		if p.ents[h-1].Sig.Kind() == k {
+			out = append(out, h)
+		}
+	}
+	return out
+}
 
-func infallibleExtra(name string) bool { return false }
+// attributable entities: bus, node, message, signal
+type attributable interface {
+	AssignAttribute(attribute acme.Attribute, value any) error
+	RemoveAttributeAssignment(attributeEntityID acme.EntityID) error
+	RemoveAllAttributeAssignments()
+	AttributeAssignments() []*acme.AttributeAssignment
+}
 
-func (g *Gen) prefixExtra() []Op { return nil }
+func (p *Pool) attributable(h int64) attributable {
+	e := p.get(h)
+	if e == nil {
+		return nil
+	}
+	switch e.K {
+	case KBus:
+		return e.Bus
+	case KNode:
+		return e.Node
+	case KMsg:
+		return e.Msg
+	case KSig:
+		return e.Sig
+	}
+	return nil
+}
 
-func taintExtra(p *Pool, o Op) string { return "" }
+func attributables(p *Pool) []int {
+	var out []int
+	out = append(out, p.of(KBus)...)
+	out = append(out, p.of(KNode)...)
+	out = append(out, p.of(KMsg)...)
+	out = append(out, p.of(KSig)...)
+	return out
+}
 
-func expectExtra(p *Pool, o Op) Expect { return Expect{} }
+// attribute values by code
+func attrValue(code int64) any {
+	switch code {
+	case 0:
+		return 5
+	case 1:
+		return -1
+	case 2:
+		return 11
+	case 3:
+		return 0.5
+	case 4:
+		return 2.0
+	case 5:
+		return "a"
+	case 6:
+		return "zz"
+	}
+	return true
+}
+
+// ---- execution ----------------------------------------------------------------------------------
+
+func execExtra(p *Pool, o Op, out *Outcome) (handled bool, bad error) {
+	a := func(i int) int64 {
+		if i < len(o.A) {
+			return o.A[i]
+		}
+		return 0
+	}
+	need := func(ok bool) bool {
+		if !ok {
+			bad = errBadReplay
+		}
+		return ok
+	}
+	handled = true
+	switch o.Name {
+	case "NewType": // size signed
+		t, err := acme.NewIntegerSignalType("t", int(a(0)), a(1) == 1)
+		out.Err = err
+		if err == nil {
+			h := p.add(&Ent{K: KType, Type: t})
+			p.register(t.EntityID(), h)
+		}
+	case "NewUnit":
+		u := acme.NewSignalUnit("u", acme.SignalUnitKindCustom, "x")
+		h := p.add(&Ent{K: KUnit, Unit: u})
+		p.register(u.EntityID(), h)
+	case "NewStdSignal": // name type
+		s, err := acme.NewStandardSignal(nameStr(a(0)), p.typ(a(1)))
+		out.Err = err
+		if err == nil {
+			p.addSig(s)
+		}
+	case "NewEnumSignal": // name enum
+		s, err := acme.NewEnumSignal(nameStr(a(0)), p.enum(a(1)))
+		out.Err = err
+		if err == nil {
+			p.addSig(s)
+		}
+	case "NewMuxSignal": // name count size
+		s, err := acme.NewMultiplexerSignal(nameStr(a(0)), int(a(1)), int(a(2)))
+		out.Err = err
+		if err == nil {
+			p.addSig(s)
+		}
+	case "NewAttrString":
+		at := acme.NewStringAttribute("as", "d")
+		h := p.add(&Ent{K: KAttr, Attr: at})
+		p.register(at.EntityID(), h)
+	case "NewAttrInt":
+		at, err := acme.NewIntegerAttribute("ai", 0, 0, 10)
+		out.Err = err
+		if err == nil {
+			h := p.add(&Ent{K: KAttr, Attr: at})
+			p.register(at.EntityID(), h)
+		}
+	case "NewAttrFloat":
+		at, err := acme.NewFloatAttribute("af", 0, 0, 1)
+		out.Err = err
+		if err == nil {
+			h := p.add(&Ent{K: KAttr, Attr: at})
+			p.register(at.EntityID(), h)
+		}
+	case "NewAttrEnum":
+		at, err := acme.NewEnumAttribute("ae", "a", "b")
+		out.Err = err
+		if err == nil {
+			h := p.add(&Ent{K: KAttr, Attr: at})
+			p.register(at.EntityID(), h)
+		}
+	case "NewBuilder":
+		b := acme.NewCANIDBuilder("cb").UseMessageID(0, 11)
+		h := p.add(&Ent{K: KBuilder, Bld: b})
+		p.register(b.EntityID(), h)
+
+	case "CloneType":
+		if t := p.typ(a(0)); need(t != nil) {
+			c := t.Clone()
+			h := p.add(&Ent{K: KType, Type: c})
+			p.register(c.EntityID(), h)
+		}
+	case "CloneUnit":
+		if u := p.unit(a(0)); need(u != nil) {
+			c := u.Clone()
+			h := p.add(&Ent{K: KUnit, Unit: c})
+			p.register(c.EntityID(), h)
+		}
+	case "CloneAttr":
+		if at := p.attr(a(0)); need(at != nil) {
+			c, err := at.Clone()
+			out.Err = err
+			if err == nil {
+				h := p.add(&Ent{K: KAttr, Attr: c})
+				p.register(c.EntityID(), h)
+			}
+		}
+
+	case "MsgAppendSignal":
+		if m := p.msg(a(0)); need(m != nil) {
+			out.Err = m.AppendSignal(p.sig(a(1)))
+		}
+	case "MsgInsertSignal":
+		if m := p.msg(a(0)); need(m != nil) {
+			out.Err = m.InsertSignal(p.sig(a(1)), int(a(2)))
+		}
+	case "MsgRemoveSignal":
+		if m := p.msg(a(0)); need(m != nil) {
+			out.Err = m.RemoveSignal(p.eid(a(1)))
+		}
+	case "MsgRemoveAllSignals":
+		if m := p.msg(a(0)); need(m != nil) {
+			m.RemoveAllSignals()
+		}
+	case "SigUpdateName":
+		if s := p.sig(a(0)); need(s != nil) {
+			out.Err = s.UpdateName(nameStr(a(1)))
+		}
+	case "MuxInsertSignal": // mux sig start g...
+		if m := p.mux(a(0)); need(m != nil) {
+			var gs []int
+			for _, g := range o.A[min(3, len(o.A)):] {
+				gs = append(gs, int(g))
+			}
+			out.Err = m.InsertSignal(p.sig(a(1)), int(a(2)), gs...)
+		}
+	case "MuxRemoveSignal":
+		if m := p.mux(a(0)); need(m != nil) {
+			out.Err = m.RemoveSignal(p.eid(a(1)))
+		}
+	case "MuxClearGroup":
+		if m := p.mux(a(0)); need(m != nil) {
+			out.Err = m.ClearSignalGroup(int(a(1)))
+		}
+	case "MuxClearAll":
+		if m := p.mux(a(0)); need(m != nil) {
+			m.ClearAllSignalGroups()
+		}
+
+	case "StdSetType":
+		if s := p.std(a(0)); need(s != nil) {
+			out.Err = s.SetType(p.typ(a(1)))
+		}
+	case "StdSetUnit":
+		if s := p.std(a(0)); need(s != nil) {
+			s.SetUnit(p.unit(a(1)))
+		}
+	case "EnumSetEnum":
+		if s := p.esig(a(0)); need(s != nil) {
+			out.Err = s.SetEnum(p.enum(a(1)))
+		}
+	case "Assign": // entity attribute valuecode
+		if e := p.attributable(a(0)); need(e != nil) {
+			out.Err = e.AssignAttribute(p.attr(a(1)), attrValue(a(2)))
+		}
+	case "RemoveAssign":
+		if e := p.attributable(a(0)); need(e != nil) {
+			out.Err = e.RemoveAttributeAssignment(p.eid(a(1)))
+		}
+	case "RemoveAllAssign":
+		if e := p.attributable(a(0)); need(e != nil) {
+			e.RemoveAllAttributeAssignments()
+		}
+	case "BusSetBuilder":
+		if b := p.bus(a(0)); need(b != nil) {
+			b.SetCANIDBuilder(p.bld(a(1)))
+		}
+	default:
+		handled = false
+	}
+	return
+}
+
+func init() {
+	for k, v := range map[string]string{
+		"MsgAppendSignal": "Message.AppendSignal", "MsgInsertSignal": "Message.InsertSignal", "MsgRemoveSignal": "Message.RemoveSignal",
+		"MsgRemoveAllSignals": "Message.RemoveAllSignals", "SigUpdateName": "Signal.UpdateName",
+		"MuxInsertSignal": "MultiplexerSignal.InsertSignal", "MuxRemoveSignal": "MultiplexerSignal.RemoveSignal",
+		"MuxClearGroup": "MultiplexerSignal.ClearSignalGroup", "MuxClearAll": "MultiplexerSignal.ClearAllSignalGroups",
+		"StdSetType": "StandardSignal.SetType", "StdSetUnit": "StandardSignal.SetUnit", "EnumSetEnum": "EnumSignal.SetEnum",
+		"Assign": "AssignAttribute", "RemoveAssign": "RemoveAttributeAssignment", "RemoveAllAssign": "RemoveAllAttributeAssignments",
+		"BusSetBuilder": "Bus.SetCANIDBuilder", "NewStdSignal": "NewStandardSignal", "NewEnumSignal": "NewEnumSignal",
+		"NewMuxSignal": "NewMultiplexerSignal", "NewType": "NewIntegerSignalType",
+	} {
+		goName[k] = v
+	}
+}
+
+// ---- signal trees -------------------------------------------------------------------------------
+
+// children of a multiplexer through its groups (what the public API shows)
+func muxChildren(m *acme.MultiplexerSignal) []acme.Signal {
+	seen := map[acme.EntityID]bool{}
+	var out []acme.Signal
+	for _, g := range m.GetSignalGroups() {
+		for _, s := range g {
+			if !seen[s.EntityID()] {
+				seen[s.EntityID()] = true
+				out = append(out, s)
+			}
+		}
+	}
+	return out
+}
+
+// reach: the signals reachable from the roots through multiplexer groups, at any depth
+func reach(roots []acme.Signal) []acme.Signal {
+	var out []acme.Signal
+	seen := map[acme.EntityID]bool{}
+	var walk func(s acme.Signal, depth int)
+	walk = func(s acme.Signal, depth int) {
+		if s == nil || seen[s.EntityID()] || depth > 16 {
+			return
+		}
+		seen[s.EntityID()] = true
+		out = append(out, s)
+		if s.Kind() == acme.SignalKindMultiplexer {
+			m, _ := s.ToMultiplexer()
+			for _, c := range muxChildren(m) {
+				walk(c, depth+1)
+			}
+		}
+	}
+	for _, r := range roots {
+		walk(r, 0)
+	}
+	return out
+}
+
+// ---- snapshots ----------------------------------------------------------------------------------
+
+func sigRef(p *Pool, s acme.Signal) string {
+	if s == nil {
+		return "-"
+	}
+	return p.hid(s.EntityID())
+}
+
+func msgSignalsSnap(p *Pool, m *acme.Message) string {
+	var sb strings.Builder
+	sb.WriteString("signals=[")
+	for _, s := range m.Signals() {
+		fmt.Fprintf(&sb, "%s@%d+%d ", sigRef(p, s), s.GetStartBit(), s.GetSize())
+	}
+	sb.WriteString("] names=")
+	names := m.SignalNames()
+	sort.Strings(names)
+	sb.WriteString(strings.Join(names, ","))
+	var raw []string
+	for id := range m.VerifSignals() {
+		raw = append(raw, p.hid(id))
+	}
+	sb.WriteString(" reg=" + joinSorted(raw, true) + " regnames=" + mapNameID(p, m.VerifSignalNames()))
+	return sb.String()
+}
+
+func extraSnap(p *Pool, e *Ent) string {
+	var sb strings.Builder
+	w := func(format string, a ...any) { fmt.Fprintf(&sb, format, a...) }
+	switch e.K {
+	case KSig:
+		s := e.Sig
+		pm, pmx := "-", "-"
+		if s.ParentMessage() != nil {
+			pm = p.hid(s.ParentMessage().EntityID())
+		}
+		if s.ParentMultiplexerSignal() != nil {
+			pmx = p.hid(s.ParentMultiplexerSignal().EntityID())
+		}
+		w("name=%q desc=%q kind=%d msg=%s mux=%s rel=%d size=%d end=%d send=%d startv=%v att=%s", s.Name(), s.Desc(), s.Kind(), pm, pmx,
+			s.GetRelativeStartPos(), s.GetSize(), s.Endianness(), s.SendType(), s.StartValue(), attSnap(p, s.AttributeAssignments()))
+		switch s.Kind() {
+		case acme.SignalKindStandard:
+			ss, _ := s.ToStandard()
+			u := "-"
+			if ss.Unit() != nil {
+				u = p.hid(ss.Unit().EntityID())
+			}
+			w(" type=%s unit=%s", p.hid(ss.Type().EntityID()), u)
+		case acme.SignalKindEnum:
+			es, _ := s.ToEnum()
+			w(" enum=%s", p.hid(es.Enum().EntityID()))
+		case acme.SignalKindMultiplexer:
+			m, _ := s.ToMultiplexer()
+			w(" count=%d gsize=%d groups=", m.GroupCount(), m.GroupSize())
+			for gi, g := range m.GetSignalGroups() {
+				w("%d[", gi)
+				for _, c := range g {
+					w("%s@%d ", sigRef(p, c), c.GetRelativeStartPos())
+				}
+				w("]")
+			}
+			var raw []string
+			for id := range m.VerifSignals() {
+				raw = append(raw, p.hid(id))
+			}
+			var gids []string
+			for id, gs := range m.VerifSignalGroupIDs() {
+				gids = append(gids, fmt.Sprintf("%s:%v", p.hid(id), gs))
+			}
+			sort.Strings(gids)
+			var fixed []string
+			for id := range m.VerifFixedSignals() {
+				fixed = append(fixed, p.hid(id))
+			}
+			w(" reg=%s regnames=%s gids=%s fixed=%s", joinSorted(raw, true), mapNameID(p, m.VerifSignalNames()), strings.Join(gids, ";"), joinSorted(fixed, true))
+		}
+	case KType:
+		t := e.Type
+		w("name=%q size=%d signed=%v min=%v max=%v scale=%v off=%v refs=%s", t.Name(), t.Size(), t.Signed(), t.Min(), t.Max(), t.Scale(), t.Offset(), refsSnap(p, t.VerifRefs()))
+	case KUnit:
+		u := e.Unit
+		w("name=%q kind=%d sym=%q refs=%s", u.Name(), u.Kind(), u.Symbol(), refsSnap(p, u.VerifRefs()))
+	case KAttr:
+		at := e.Attr
+		var xs []string
+		for _, r := range at.References() {
+			xs = append(xs, entRef(p, r.Entity()))
+		}
+		sort.Strings(xs)
+		w("name=%q type=%d refs=%d{%s}", at.Name(), at.Type(), len(at.References()), strings.Join(xs, ","))
+	case KBuilder:
+		b := e.Bld
+		w("name=%q ops=%d refs=%s", b.Name(), len(b.Operations()), refsSnap(p, b.VerifRefs()))
+	}
+	return sb.String()
+}
+
+func entRef(p *Pool, e acme.AttributableEntity) string {
+	if e == nil {
+		return "-"
+	}
+	return p.hid(e.EntityID())
+}
+
+// ---- property predicates --------------------------------------------------------------------------
+
+func extraCheck(p *Pool, e *Ent) []string {
+	var out []string
+	owner := p.describe(e.H)
+	switch e.K {
+	case KSig:
+		out = append(out, vinv.CheckSignalUp(e.Sig)...)
+		if m, err := e.Sig.ToMultiplexer(); err == nil && e.Sig.Kind() == acme.SignalKindMultiplexer {
+			out = append(out, vinv.CheckMultiplexerLinks(m)...)
+			// raw registry of the multiplexer = the signals its groups hold
+			want := map[string]acme.EntityID{}
+			ids := map[acme.EntityID]bool{}
+			for _, c := range muxChildren(m) {
+				want[c.Name()] = c.EntityID()
+				ids[c.EntityID()] = true
+			}
+			rawClause(&out, p, "c04-raw-mux-signalNames", owner, m.VerifSignalNames(), want)
+			for id := range m.VerifSignals() {
+				if !ids[id] {
+					out = append(out, fmt.Sprintf("c05-raw-mux-signals: %s: registry holds %s which no group holds", owner, p.hid(id)))
+				}
+			}
+			if len(m.VerifSignals()) != len(ids) {
+				out = append(out, fmt.Sprintf("c05-raw-mux-signals: %s: registry has %d signals, the groups hold %d", owner, len(m.VerifSignals()), len(ids)))
+			}
+		}
+		out = append(out, vinv.CheckAttributeAssignments(e.Sig)...)
+		switch e.Sig.Kind() {
+		case acme.SignalKindStandard:
+			ss, _ := e.Sig.ToStandard()
+			if _, ok := ss.Type().VerifRefs()[ss.EntityID()]; !ok {
+				out = append(out, fmt.Sprintf("c05-refs-type: %s: uses a type that does not list it as reference", owner))
+			}
+			if u := ss.Unit(); u != nil {
+				if _, ok := u.VerifRefs()[ss.EntityID()]; !ok {
+					out = append(out, fmt.Sprintf("c05-refs-unit: %s: uses a unit that does not list it as reference", owner))
+				}
+			}
+		case acme.SignalKindEnum:
+			es, _ := e.Sig.ToEnum()
+			if _, ok := es.Enum().VerifRefs()[es.EntityID()]; !ok {
+				out = append(out, fmt.Sprintf("c05-refs-enum: %s: uses an enum that does not list it as reference", owner))
+			}
+		}
+	case KType:
+		for _, r := range e.Type.References() {
+			if r.Type() != e.Type {
+				out = append(out, fmt.Sprintf("c05-refs-type: %s: lists signal %s which uses another type", owner, p.hid(r.EntityID())))
+			}
+		}
+		if e.Type.ReferenceCount() != len(e.Type.References()) {
+			out = append(out, fmt.Sprintf("c05-refs-type: %s: ReferenceCount disagrees with References", owner))
+		}
+	case KUnit:
+		for _, r := range e.Unit.References() {
+			if r.Unit() != e.Unit {
+				out = append(out, fmt.Sprintf("c05-refs-unit: %s: lists signal %s which uses another unit", owner, p.hid(r.EntityID())))
+			}
+		}
+	case KAttr:
+		for _, r := range e.Attr.References() {
+			found := false
+			if ent := r.Entity(); ent != nil {
+				for _, a := range ent.AttributeAssignments() {
+					if a == r {
+						found = true
+					}
+				}
+			}
+			if !found {
+				out = append(out, fmt.Sprintf("c05-refs-attribute: %s: lists an assignment that its entity %s no longer holds", owner, entRef(p, r.Entity())))
+			}
+		}
+	case KBuilder:
+		for _, b := range e.Bld.References() {
+			if b.CANIDBuilder() != e.Bld {
+				out = append(out, fmt.Sprintf("c05-refs-builder: %s: lists bus %s which uses another builder", owner, p.hid(b.EntityID())))
+			}
+		}
+	}
+	return out
+}
+
+// extra clauses for the kinds of layer 1 that depend on layers 2/3
+func extraCheckL1(p *Pool, e *Ent) []string {
+	var out []string
+	owner := p.describe(e.H)
+	switch e.K {
+	case KBus:
+		b := e.Bus
+		out = append(out, vinv.CheckAttributeAssignments(b)...)
+		if cb := b.CANIDBuilder(); cb == nil {
+			out = append(out, fmt.Sprintf("c05-refs-builder: %s: has no CAN-ID builder", owner))
+		} else if _, ok := cb.VerifRefs()[b.EntityID()]; !ok {
+			out = append(out, fmt.Sprintf("c05-refs-builder: %s: uses a builder that does not list it as reference", owner))
+		}
+	case KNode:
+		out = append(out, vinv.CheckAttributeAssignments(e.Node)...)
+	case KMsg:
+		m := e.Msg
+		out = append(out, vinv.CheckAttributeAssignments(m)...)
+		// raw registries of the message = the signals reachable from its layout
+		want := map[string]acme.EntityID{}
+		ids := map[acme.EntityID]bool{}
+		for _, s := range reach(m.Signals()) {
+			want[s.Name()] = s.EntityID()
+			ids[s.EntityID()] = true
+		}
+		rawClause(&out, p, "c04-raw-message-signalNames", owner, m.VerifSignalNames(), want)
+		for id := range m.VerifSignals() {
+			if !ids[id] {
+				out = append(out, fmt.Sprintf("c05-raw-message-signals: %s: registry holds %s which is not reachable from the payload", owner, p.hid(id)))
+			}
+		}
+		if len(m.VerifSignals()) != len(ids) {
+			out = append(out, fmt.Sprintf("c05-raw-message-signals: %s: registry has %d signals, %d reachable from the payload", owner, len(m.VerifSignals()), len(ids)))
+		}
+	case KEnum:
+		for _, r := range e.Enum.References() {
+			if r.Enum() != e.Enum {
+				out = append(out, fmt.Sprintf("c05-refs-enum: %s: lists signal %s which uses another enum", owner, p.hid(r.EntityID())))
+			}
+		}
+	}
+	return out
+}
+
+// ---- generator ------------------------------------------------------------------------------------
+
+func infallibleExtra(name string) bool {
+	switch name {
+	case "NewUnit", "NewAttrString", "NewBuilder", "CloneType", "CloneUnit", "MsgRemoveAllSignals", "MuxClearAll", "StdSetUnit",
+		"RemoveAllAssign", "BusSetBuilder", "NewAttrInt", "NewAttrFloat", "NewAttrEnum", "CloneAttr":
+		return true
+	}
+	return false
+}
+
+func (g *Gen) prefixExtra() []Op {
+	var ops []Op
+	add := func(name string, a ...int64) { ops = append(ops, Op{Name: name, A: a}) }
+	// handles continue after the layer-1 prefix (2 nets, 3 buses, 4 nodes + interfaces, 6 messages,
+	// 3 enums, 8 values); they are computed by the executor, the generator only needs kinds
+	for _, sz := range []int64{1, 4, 8, 16, 33} {
+		add("NewType", sz, int64(g.r.below(2)))
+	}
+	add("NewUnit")
+	add("NewUnit")
+	add("NewAttrString")
+	add("NewAttrInt")
+	add("NewAttrFloat")
+	add("NewAttrEnum")
+	add("NewBuilder")
+	add("NewBuilder")
+	return ops
+}
+
+// signalsPrefix is drawn once the types and enums exist (needs their handles)
+func (g *Gen) signalOps(p *Pool) []Op {
+	var ops []Op
+	add := func(name string, a ...int64) { ops = append(ops, Op{Name: name, A: a}) }
+	for i := 0; i < 6; i++ {
+		add("NewStdSignal", g.name(), g.r.pick(p.of(KType)))
+	}
+	for i := 0; i < 3; i++ {
+		add("NewEnumSignal", g.name(), g.r.pick(p.of(KEnum)))
+	}
+	counts := []int64{1, 2, 4}
+	sizes := []int64{8, 16, 24}
+	for i := 0; i < 3; i++ {
+		add("NewMuxSignal", g.name(), counts[g.r.below(3)], sizes[g.r.below(3)])
+	}
+	return ops
+}
+
+func (g *Gen) sigPtr(p *Pool) int64 {
+	if g.r.chance(5) {
+		return 0
+	}
+	return g.r.pick(p.of(KSig))
+}
+
+func extraTemplates() []template {
+	return []template{
+		{"MsgAppendSignal", 10, func(g *Gen, p *Pool) (Op, bool) { return mk("MsgAppendSignal", g.r.pick(p.of(KMsg)), g.sigPtr(p)) }},
+		{"MsgInsertSignal", 8, func(g *Gen, p *Pool) (Op, bool) {
+			return mk("MsgInsertSignal", g.r.pick(p.of(KMsg)), g.sigPtr(p), int64([]int{0, 0, 4, 8, 16, 32, 60, -1, 64}[g.r.below(9)]))
+		}},
+		{"MsgRemoveSignal", 5, func(g *Gen, p *Pool) (Op, bool) {
+			m := g.r.pick(p.of(KMsg))
+			if all := reach(p.msg(m).Signals()); len(all) > 0 && g.r.chance(75) {
+				return mk("MsgRemoveSignal", m, int64(p.byID[all[g.r.below(len(all))].EntityID()]))
+			}
+			return mk("MsgRemoveSignal", m, g.anyHandle(p))
+		}},
+		{"MsgRemoveAllSignals", 2, func(g *Gen, p *Pool) (Op, bool) { return mk("MsgRemoveAllSignals", g.r.pick(p.of(KMsg))) }},
+		{"SigUpdateName", 9, func(g *Gen, p *Pool) (Op, bool) { return mk("SigUpdateName", g.r.pick(p.of(KSig)), g.name()) }},
+		{"MuxInsertSignal", 14, func(g *Gen, p *Pool) (Op, bool) {
+			muxes := sigsOfKind(p, acme.SignalKindMultiplexer)
+			if len(muxes) == 0 {
+				return none, false
+			}
+			mx := g.r.pick(muxes)
+			m := p.mux(mx)
+			args := []int64{mx, g.sigPtr(p), int64([]int{0, 0, 4, 8, 12, -1}[g.r.below(6)])}
+			if !g.r.chance(30) {
+				n := 1 + g.r.below(2)
+				for i := 0; i < n; i++ {
+					args = append(args, int64(g.r.below(m.GroupCount()+2)-1))
+				}
+			}
+			return mk("MuxInsertSignal", args...)
+		}},
+		{"MuxRemoveSignal", 5, func(g *Gen, p *Pool) (Op, bool) {
+			muxes := sigsOfKind(p, acme.SignalKindMultiplexer)
+			if len(muxes) == 0 {
+				return none, false
+			}
+			mx := g.r.pick(muxes)
+			if cs := muxChildren(p.mux(mx)); len(cs) > 0 && g.r.chance(75) {
+				return mk("MuxRemoveSignal", mx, int64(p.byID[cs[g.r.below(len(cs))].EntityID()]))
+			}
+			return mk("MuxRemoveSignal", mx, g.anyHandle(p))
+		}},
+		{"MuxClearGroup", 3, func(g *Gen, p *Pool) (Op, bool) {
+			muxes := sigsOfKind(p, acme.SignalKindMultiplexer)
+			if len(muxes) == 0 {
+				return none, false
+			}
+			mx := g.r.pick(muxes)
+			return mk("MuxClearGroup", mx, int64(g.r.below(p.mux(mx).GroupCount()+2)-1))
+		}},
+		{"MuxClearAll", 2, func(g *Gen, p *Pool) (Op, bool) {
+			muxes := sigsOfKind(p, acme.SignalKindMultiplexer)
+			if len(muxes) == 0 {
+				return none, false
+			}
+			return mk("MuxClearAll", g.r.pick(muxes))
+		}},
+		{"StdSetType", 5, func(g *Gen, p *Pool) (Op, bool) {
+			ss := sigsOfKind(p, acme.SignalKindStandard)
+			if len(ss) == 0 {
+				return none, false
+			}
+			return mk("StdSetType", g.r.pick(ss), g.ptr(p.of(KType)))
+		}},
+		{"StdSetUnit", 4, func(g *Gen, p *Pool) (Op, bool) {
+			ss := sigsOfKind(p, acme.SignalKindStandard)
+			if len(ss) == 0 {
+				return none, false
+			}
+			u := g.r.pick(p.of(KUnit))
+			if g.r.chance(25) {
+				u = 0
+			}
+			return mk("StdSetUnit", g.r.pick(ss), u)
+		}},
+		{"EnumSetEnum", 4, func(g *Gen, p *Pool) (Op, bool) {
+			ss := sigsOfKind(p, acme.SignalKindEnum)
+			if len(ss) == 0 {
+				return none, false
+			}
+			return mk("EnumSetEnum", g.r.pick(ss), g.ptr(p.of(KEnum)))
+		}},
+		{"Assign", 8, func(g *Gen, p *Pool) (Op, bool) {
+			return mk("Assign", g.r.pick(attributables(p)), g.ptr(p.of(KAttr)), int64(g.r.below(8)))
+		}},
+		{"RemoveAssign", 4, func(g *Gen, p *Pool) (Op, bool) {
+			e := g.r.pick(attributables(p))
+			if as := p.attributable(e).AttributeAssignments(); len(as) > 0 && g.r.chance(70) {
+				return mk("RemoveAssign", e, int64(p.byID[as[g.r.below(len(as))].Attribute().EntityID()]))
+			}
+			return mk("RemoveAssign", e, g.anyHandle(p))
+		}},
+		{"RemoveAllAssign", 2, func(g *Gen, p *Pool) (Op, bool) { return mk("RemoveAllAssign", g.r.pick(attributables(p))) }},
+		{"BusSetBuilder", 3, func(g *Gen, p *Pool) (Op, bool) {
+			b := g.r.pick(p.of(KBuilder))
+			if g.r.chance(25) {
+				b = 0
+			}
+			return mk("BusSetBuilder", g.r.pick(p.of(KBus)), b)
+		}},
+		{"CloneType", 1, func(g *Gen, p *Pool) (Op, bool) {
+			if len(p.of(KType)) >= 8 {
+				return none, false
+			}
+			return mk("CloneType", g.r.pick(p.of(KType)))
+		}},
+		{"CloneUnit", 1, func(g *Gen, p *Pool) (Op, bool) {
+			if len(p.of(KUnit)) >= 4 {
+				return none, false
+			}
+			return mk("CloneUnit", g.r.pick(p.of(KUnit)))
+		}},
+		{"CloneAttr", 1, func(g *Gen, p *Pool) (Op, bool) {
+			if len(p.of(KAttr)) >= 7 {
+				return none, false
+			}
+			return mk("CloneAttr", g.r.pick(p.of(KAttr)))
+		}},
+		{"NewStdSignal", 1, func(g *Gen, p *Pool) (Op, bool) {
+			if len(p.of(KSig)) >= 16 {
+				return mk("NewStdSignal", g.name(), 0)
+			}
+			return mk("NewStdSignal", g.name(), g.ptr(p.of(KType)))
+		}},
+		{"NewMuxSignal", 1, func(g *Gen, p *Pool) (Op, bool) {
+			if len(p.of(KSig)) >= 16 {
+				return mk("NewMuxSignal", g.name(), int64(g.r.below(2)-1), 8)
+			}
+			return mk("NewMuxSignal", g.name(), int64(g.r.below(4)-1), int64([]int{8, 0, -1, 16}[g.r.below(4)]))
+		}},
+		{"NewEnumSignal", 1, func(g *Gen, p *Pool) (Op, bool) {
+			if len(p.of(KSig)) >= 16 {
+				return mk("NewEnumSignal", g.name(), 0)
+			}
+			return mk("NewEnumSignal", g.name(), g.ptr(p.of(KEnum)))
+		}},
+	}
+}
+
+// ---- taints (open findings) -------------------------------------------------------------------------
+
+func taintExtra(p *Pool, o Op) string {
+	a := func(i int) int64 {
+		if i < len(o.A) {
+			return o.A[i]
+		}
+		return 0
+	}
+	switch o.Name {
+	case "MsgAppendSignal", "MsgInsertSignal":
+		if s := p.sig(a(1)); s != nil && (s.ParentMessage() != nil || s.ParentMultiplexerSignal() != nil) {
+			if s.ParentMessage() == p.msg(a(0)) && s.ParentMultiplexerSignal() == nil {
+				return "" // refused: its own name is registered in the message
+			}
+			return "reattach Message." + map[string]string{"MsgAppendSignal": "AppendSignal", "MsgInsertSignal": "InsertSignal"}[o.Name]
+		}
+	case "MuxInsertSignal":
+		if s := p.sig(a(1)); s != nil {
+			mx := p.mux(a(0))
+			if s.ParentMultiplexerSignal() != nil && s.ParentMultiplexerSignal() != mx {
+				return "reattach MultiplexerSignal.InsertSignal"
+			}
+			if s.ParentMultiplexerSignal() == nil && s.ParentMessage() != nil {
+				return "reattach MultiplexerSignal.InsertSignal"
+			}
+			// a multiplexer inserted into itself or into one of its descendants
+			if mx != nil {
+				for _, d := range reach([]acme.Signal{s}) {
+					if d.EntityID() == mx.EntityID() {
+						return "reattach MultiplexerSignal.InsertSignal"
+					}
+				}
+			}
+		}
+	}
+	return ""
+}
+
+// ---- declarative preconditions ------------------------------------------------------------------------
+
+// names used in the message a signal / multiplexer belongs to (contents, any depth)
+func msgNameOwner(m *acme.Message, name string) acme.Signal {
+	for _, s := range reach(m.Signals()) {
+		if s.Name() == name {
+			return s
+		}
+	}
+	return nil
+}
+
+// nestedNameClash: an incoming multiplexer whose descendants collide with the message or among
+// themselves (DESIGN D15, fixed)
+func nestedNameClash(m *acme.Message, s acme.Signal) bool {
+	if s.Kind() != acme.SignalKindMultiplexer {
+		return false
+	}
+	seen := map[string]acme.EntityID{s.Name(): s.EntityID()}
+	for _, d := range reach([]acme.Signal{s})[1:] {
+		if id, ok := seen[d.Name()]; ok && id != d.EntityID() {
+			return true
+		}
+		if o := msgNameOwner(m, d.Name()); o != nil && o.EntityID() != d.EntityID() {
+			return true
+		}
+		seen[d.Name()] = d.EntityID()
+	}
+	return false
+}
+
+func expectExtra(p *Pool, o Op) Expect {
+	a := func(i int) int64 {
+		if i < len(o.A) {
+			return o.A[i]
+		}
+		return 0
+	}
+	switch o.Name {
+	case "NewType":
+		if a(0) <= 0 {
+			return Expect{Refusals: []string{"Negative Argument", "Zero Argument"}}
+		}
+	case "NewStdSignal":
+		if p.typ(a(1)) == nil {
+			return one("Nil Argument")
+		}
+	case "NewEnumSignal":
+		if p.enum(a(1)) == nil {
+			return one("Nil Argument")
+		}
+	case "NewMuxSignal":
+		switch {
+		case a(1) == 0:
+			return one("Zero Argument")
+		case a(1) < 0:
+			return one("Negative Argument")
+		case a(2) == 0:
+			return one("Zero Argument")
+		case a(2) < 0:
+			return one("Negative Argument")
+		}
+	case "MsgAppendSignal", "MsgInsertSignal":
+		m, s := p.msg(a(0)), p.sig(a(1))
+		if s == nil {
+			return one("Nil Argument")
+		}
+		if msgNameOwner(m, s.Name()) != nil {
+			return one("Duplicated Name")
+		}
+		if nestedNameClash(m, s) {
+			return one("Duplicated Name")
+		}
+		return Expect{LayoutMaybe: true}
+	case "MsgRemoveSignal":
+		m, id := p.msg(a(0)), p.eid(a(1))
+		for _, s := range reach(m.Signals()) {
+			if s.EntityID() == id {
+				return Expect{}
+			}
+		}
+		return one("NotFound RemoveEntity")
+	case "SigUpdateName":
+		s, nm := p.sig(a(0)), nameStr(a(1))
+		if s.Name() == nm {
+			return Expect{}
+		}
+		if mx := s.ParentMultiplexerSignal(); mx != nil {
+			for _, c := range muxChildren(mx) {
+				if c.EntityID() != s.EntityID() && c.Name() == nm {
+					return one("Duplicated Name")
+				}
+			}
+			if mm := mx.ParentMessage(); mm != nil && msgNameOwner(mm, nm) != nil {
+				return one("Duplicated Name")
+			}
+		}
+		if m := s.ParentMessage(); m != nil && msgNameOwner(m, nm) != nil {
+			return one("Duplicated Name")
+		}
+	case "MuxInsertSignal":
+		mx, s := p.mux(a(0)), p.sig(a(1))
+		if s == nil {
+			return one("Nil Argument")
+		}
+		for _, c := range muxChildren(mx) {
+			if c.EntityID() != s.EntityID() && c.Name() == s.Name() {
+				return one("Duplicated Name")
+			}
+		}
+		already := false
+		for _, c := range muxChildren(mx) {
+			if c.EntityID() == s.EntityID() {
+				already = true
+			}
+		}
+		if mm := mx.ParentMessage(); mm != nil {
+			if !already && msgNameOwner(mm, s.Name()) != nil {
+				// also when the owner of the name is the signal itself, sitting elsewhere in the message
+				return one("Duplicated Name")
+			}
+			if nestedNameClash(mm, s) {
+				return one("Duplicated Name")
+			}
+		}
+		// group ids and geometry: C07's subject; any GroupID / layout refusal is admitted when a
+		// group id is out of range, repeated for this signal, or mixes fixed and grouped insertion
+		ex := Expect{LayoutMaybe: true}
+		gids := o.A[min(3, len(o.A)):]
+		if len(gids) == 0 {
+			if already {
+				ex.Refusals = append(ex.Refusals, "Duplicated GroupID")
+				ex.LayoutMaybe = false
+			}
+			return ex
+		}
+		fixed := mx.VerifFixedSignals()[s.EntityID()]
+		prev := mx.VerifSignalGroupIDs()[s.EntityID()]
+		seen := map[int64]bool{}
+		for _, gid := range gids {
+			if seen[gid] {
+				continue
+			}
+			seen[gid] = true
+			switch {
+			case gid < 0:
+				ex.Refusals = append(ex.Refusals, "Negative GroupID")
+			case gid >= int64(mx.GroupCount()):
+				ex.Refusals = append(ex.Refusals, "OutOfBounds GroupID")
+			default:
+				dup := fixed
+				for _, x := range prev {
+					if int64(x) == gid {
+						dup = true
+					}
+				}
+				if dup {
+					ex.Refusals = append(ex.Refusals, "Duplicated GroupID")
+				}
+			}
+			if len(ex.Refusals) > 0 {
+				break
+			}
+		}
+		return ex
+	case "MuxRemoveSignal":
+		mx, id := p.mux(a(0)), p.eid(a(1))
+		for _, c := range muxChildren(mx) {
+			if c.EntityID() == id {
+				return Expect{}
+			}
+		}
+		return one("NotFound RemoveEntity")
+	case "MuxClearGroup":
+		mx, gid := p.mux(a(0)), a(1)
+		if gid < 0 {
+			return one("Negative GroupID")
+		}
+		if gid >= int64(mx.GroupCount()) {
+			return one("OutOfBounds GroupID")
+		}
+	case "StdSetType":
+		if p.typ(a(1)) == nil {
+			return one("Nil Argument")
+		}
+		return Expect{LayoutMaybe: true}
+	case "EnumSetEnum":
+		if p.enum(a(1)) == nil {
+			return one("Nil Argument")
+		}
+		return Expect{LayoutMaybe: true}
+	case "Assign":
+		at := p.attr(a(1))
+		if at == nil {
+			return one("Nil Argument")
+		}
+		switch v := attrValue(a(2)).(type) {
+		case int:
+			if at.Type() != acme.AttributeTypeInteger {
+				return one("InvalidType AttributeValue")
+			}
+			ia, _ := at.ToInteger()
+			if v < ia.Min() || v > ia.Max() {
+				return one("OutOfBounds AttributeValue")
+			}
+		case float64:
+			if at.Type() != acme.AttributeTypeFloat {
+				return one("InvalidType AttributeValue")
+			}
+			fa, _ := at.ToFloat()
+			if v < fa.Min() || v > fa.Max() {
+				return one("OutOfBounds AttributeValue")
+			}
+		case string:
+			switch at.Type() {
+			case acme.AttributeTypeString:
+			case acme.AttributeTypeEnum:
+				ea, _ := at.ToEnum()
+				ok := false
+				for _, x := range ea.Values() {
+					if x == v {
+						ok = true
+					}
+				}
+				if !ok {
+					return one("NotFound AttributeValue")
+				}
+			default:
+				return one("InvalidType AttributeValue")
+			}
+		default:
+			return one("InvalidType AttributeValue")
+		}
+	case "RemoveAssign":
+		e, id := p.attributable(a(0)), p.eid(a(1))
+		for _, x := range e.AttributeAssignments() {
+			if x.Attribute().EntityID() == id {
+				return Expect{}
+			}
+		}
+		return one("NotFound None")
+	}
+	return Expect{}
+}
 
 // fitsOracle: extra token appended to the O line of operations whose model takes the layout oracle
 func fitsOracle(o Op, cause string) (int64, bool) {
@@ -33,3 +1093,5 @@ func fitsOracle(o Op, cause string) (int64, bool) {
 	}
 	return 0, false
 }
+
+var _ = strconv.Itoa
